@@ -246,7 +246,7 @@ def make_items(tier, seed):
     rnd_items = [sp for sp in u if sp["fam"] == "compose-rand"]
     core = rnd_items[:160] + [sp for sp in u if sp["fam"] in ("compose-oraclize", "compose-naming", "compose-two", "compose-shapes4", "compose-nested", "compose-sequence")] + [sp for i, sp in enumerate(u) if sp["fam"] not in ("compose-oraclize", "compose-naming", "compose-two", "compose-rand", "compose-shapes4", "compose-nested", "compose-sequence") and i % 9 == 0]
     rest = [sp for sp in u if sp not in core]
-    return slice_quick(core + rest, seed, len(core), 250)
+    return slice_quick(core + rest, seed, len(core), 700)
 
 
 def fingerprint(qf):
